@@ -30,7 +30,9 @@ META = dict(
     claimed=True,
     technique='abstract interpretation with a graded-weight (dimensional '
               'analysis) type system over the symbolically evaluated '
-              'theory hand-off; opaque solvers constrained to weight-0 inputs',
+              'theory hand-off; opaque solvers constrained to weight-0 inputs'
+              '; absolute-tolerance and rounding operations on weighted quantities ar'
+              'e type conflicts; degree-1 homogeneity of the rigid-motion helpers',
     level_text='A type-checking proof, for all inputs, that holograms, fields, '
                'intensities and scattering matrices are invariant (weight 0) and '
                'cross sections have weight (2,2,2,0) under scaling of all lengths, '
